@@ -233,7 +233,7 @@ fn main() {
         "C06" => run(c06::C06::new(), &args, 250, 4000),
         "C08" => run(c08::C08::new(), &args, 700, 20000),
         "C09" => run_parts("C09", vec![part(c09::C09::new(), "", (400, 8000)), part(c09gossip::C09Gossip::new(), "gossip", (400, 8000))], &args),
-        "C10" => run2(c10::C10::new(), c10net::C10Net::new(), "connection", &args, (300, 60), (5000, 1500)),
+        "C10" => run_parts("C10", vec![part(c10::C10::new(), "", (300, 5000)), part(c10net::C10Net::new(), "connection", (60, 1500)), part(c14::C14::stopping(), "actor", (120, 2000))], &args),
         "C11" => run_parts("C11", vec![part(c11::C11::new(), "", (600, 10000)), part(c11net::C11Net::new(), "net", (24, 400)), part(live::Live::new("C11"), "live", (120, 2500))], &args),
         "C12" => run_parts("C12", vec![part(c12::C12::new(), "", (600, 10000)), part(apinode::ApiNode::new("C12"), "node", (60, 1500))], &args),
         "C13" => run(storeprops::StoreProp::new("C13"), &args, 2500, 40000),
